@@ -219,6 +219,10 @@ func c18(c *ev.Ctx) {
 		"if (a) { foreach e in [1] { return e; } }", "if (a) { while (b) { return 1; } } else { return 3; }", "local q; if (a) { return q; }", "function inner() { if (a) { return 1; } }"} {
 		bs = append(bs, bcase{fmt.Sprintf("function-tail-%d", i), "function f(a, b) { x = 0; " + tail + " } f(0, 0); f(1, 1); return 1;"})
 	}
+	// the constant-condition family of C02 (what the optimizer removes, folds and cuts)
+	for _, cp := range constCondPrograms() {
+		bs = append(bs, bcase{cp.id, gast.Text(cp.p)})
+	}
 	// element / argument / pair counts around the byte and 16-bit boundaries of the operand
 	for _, cnt := range []int{0, 1, 255, 256, 257, 1000, 65535} {
 		if cnt > 1000 && !c.Thorough() {
